@@ -6,3 +6,5 @@ impl vstd::std_specs::convert::FromSpecImpl<u64> for BigNum { open spec fn obeys
 /// `&data[offset..]` (R-slicefrom): the rest of the slice; indexing past the end panics, hence the precondition
 #[verifier::external_body] pub fn slice_from_(data: &[u8], offset: usize) -> (r: &[u8]) requires offset <= data@.len() ensures r@ == data@.skip(offset as int) { unimplemented!() }
 opaque_types!(Address);
+/// `Vec::reverse` (R-vecreverse; std, ASSUMED): the same elements in the opposite order
+#[verifier::external_body] pub fn vec_reverse_(v: &mut Vec<u8>) ensures final(v)@ == old(v)@.reverse() { unimplemented!() }
